@@ -415,6 +415,102 @@ func cancelSites(fset *token.FileSet, fn *ast.FuncDecl) []string {
 	return guards
 }
 
+// does fn contain the statement `ctl.<field>.Store(time.Now())` at the top level of its body?
+func storesNowAtCreation(fset *token.FileSet, fn *ast.FuncDecl, field string) bool {
+	for _, st := range fn.Body.List {
+		if es, ok := st.(*ast.ExprStmt); ok && src(fset, es.X) == "ctl."+field+".Store(time.Now())" {
+			return true
+		}
+	}
+	return false
+}
+
+// the watchdog callback: wait.Until(func() { if time.Since(ctl.<field>.Load().(time.Time)) > time.Duration(<...>.HeartbeatTimeout)*time.Second { ...; <close>; return } }, time.Second, ctl.doneCh)
+// -> "" if it has exactly that shape, else a description
+func watchdogShape(fset *token.FileSet, fn *ast.FuncDecl, field, closeCall string) string {
+	var found []string
+	ast.Inspect(fn.Body, func(n ast.Node) bool {
+		c, ok := n.(*ast.CallExpr)
+		if !ok || !isSel(c.Fun, "wait", "Until") {
+			return true
+		}
+		if len(c.Args) != 3 {
+			found = append(found, "wait.Until with unexpected arguments")
+			return true
+		}
+		fl, ok := c.Args[0].(*ast.FuncLit)
+		if !ok {
+			found = append(found, "callback is not a function literal")
+			return true
+		}
+		if src(fset, c.Args[1]) != "time.Second" {
+			found = append(found, "period is "+src(fset, c.Args[1]))
+			return true
+		}
+		if len(fl.Body.List) != 1 {
+			found = append(found, fmt.Sprintf("callback has %d statements, expected the single timeout test", len(fl.Body.List)))
+			return true
+		}
+		is, ok := fl.Body.List[0].(*ast.IfStmt)
+		if !ok || is.Init != nil || is.Else != nil {
+			found = append(found, "callback is not a plain if")
+			return true
+		}
+		cond := strings.Join(strings.Fields(src(fset, is.Cond)), "")
+		pre := "time.Since(ctl." + field + ".Load().(time.Time))>time.Duration("
+		if !strings.HasPrefix(cond, pre) || !strings.HasSuffix(cond, ".Transport.HeartbeatTimeout)*time.Second") {
+			found = append(found, "timeout test is "+src(fset, is.Cond))
+			return true
+		}
+		body := src(fset, is.Body)
+		if !strings.Contains(body, closeCall) {
+			found = append(found, "timeout branch does not call "+closeCall)
+			return true
+		}
+		found = append(found, "")
+		return true
+	})
+	if len(found) != 1 {
+		return fmt.Sprintf("%d wait.Until watchdogs found", len(found))
+	}
+	return found[0]
+}
+
+// every read of svr.proxyCfgs / svr.visitorCfgs in fn lies inside a function literal (the retried closure)
+func cfgReadInsideClosure(fset *token.FileSet, fn *ast.FuncDecl) (inside, outside int) {
+	depth := 0
+	var stack []ast.Node
+	ast.Inspect(fn.Body, func(n ast.Node) bool {
+		if n == nil {
+			if _, ok := stack[len(stack)-1].(*ast.FuncLit); ok {
+				depth--
+			}
+			stack = stack[:len(stack)-1]
+			return true
+		}
+		stack = append(stack, n)
+		if _, ok := n.(*ast.FuncLit); ok {
+			depth++
+		}
+		if s, ok := n.(*ast.SelectorExpr); ok && (s.Sel.Name == "proxyCfgs" || s.Sel.Name == "visitorCfgs") && src(fset, s.X) == "svr" {
+			if depth > 0 {
+				inside++
+			} else {
+				outside++
+			}
+		}
+		return true
+	})
+	return
+}
+
+func boolS(b bool) string {
+	if b {
+		return "true"
+	}
+	return "false"
+}
+
 func gen() ([]byte, error) {
 	fset := token.NewFileSet()
 	svc, err := funcs(fset, filepath.Join(tx.Repo, "client/service.go"))
@@ -479,6 +575,47 @@ func gen() ([]byte, error) {
 		}
 	}
 	b.WriteString("(* svr.cancel on the login path: only loginFunc's `if firstLoginExit`; login and keepControllerWorking never cancel\n" + cancelNote + " *)\nDefinition gen_login_cancel_only_under_first_login_exit : bool := " + cancelOK + ".\n\n")
+	// watchdog initialisation and test (client and server), config read inside the retried closure
+	{
+		srvf, err := funcs(fset, filepath.Join(tx.Repo, "server/control.go"))
+		if err != nil {
+			return nil, err
+		}
+		note := ""
+		flag := func(name string, ok bool, why string) {
+			if !ok {
+				note += "   " + name + ": " + tx.Sanitize(why) + "\n"
+			}
+			fmt.Fprintf(&b, "Definition %s : bool := %s.\n", name, boolS(ok))
+		}
+		cnew, err := need(ctl, "NewControl")
+		if err != nil {
+			return nil, err
+		}
+		snew, err := need(srvf, "NewControl")
+		if err != nil {
+			return nil, err
+		}
+		chb, _ := need(ctl, "Control.heartbeatWorker")
+		shb, err := need(srvf, "Control.heartbeatWorker")
+		if err != nil {
+			return nil, err
+		}
+		lf, _ := need(svc, "Service.loopLoginUntilSuccess")
+		b.WriteString("(* NewControl stores the creation instant in lastPong / lastPing; the 1 s watchdog callback is exactly the\n   strict timeout test against that value; svr.proxyCfgs / visitorCfgs are read inside the retried login closure *)\n")
+		flag("gen_cli_lastpong_init_at_creation", storesNowAtCreation(fset, cnew, "lastPong"), "client NewControl has no ctl.lastPong.Store_time.Now__")
+		flag("gen_srv_lastping_init_at_creation", storesNowAtCreation(fset, snew, "lastPing"), "server NewControl has no ctl.lastPing.Store_time.Now__")
+		cs := watchdogShape(fset, chb, "lastPong", "ctl.closeSession()")
+		flag("gen_cli_watchdog_is_plain_timeout_test", cs == "", cs)
+		ss := watchdogShape(fset, shb, "lastPing", "ctl.conn.Close()")
+		flag("gen_srv_watchdog_is_plain_timeout_test", ss == "", ss)
+		in, out := cfgReadInsideClosure(fset, lf)
+		flag("gen_cfg_read_inside_login_closure", in >= 2 && out == 0, fmt.Sprintf("%d reads inside the closure, %d outside", in, out))
+		if note != "" {
+			b.WriteString("(* deviations:\n" + note + "*)\n")
+		}
+		b.WriteString("\n")
+	}
 	run, err := need(svc, "Service.Run")
 	if err != nil {
 		return nil, err
